@@ -422,12 +422,16 @@ impl<TStdlib: Stdlib, TStdIn: Input, TStdOut: Printer, TLpt1: Printer>
             Instruction::BuiltInSub(s) => {
                 // the stacktrace should be already populated by Instruction::PushStack
                 debug_assert!(!self.stacktrace.is_empty());
-                super::built_ins::run_sub(s, self).with_stacktrace(&mut self.stacktrace)?;
+                if let Err(e) = super::built_ins::run_sub(s, self) {
+                    return Err(self.built_in_failed(e));
+                }
             }
             Instruction::BuiltInFunction(f) => {
                 // the stacktrace should be already populated by Instruction::PushStack
                 debug_assert!(!self.stacktrace.is_empty());
-                super::built_ins::run_function(f, self).with_stacktrace(&mut self.stacktrace)?;
+                if let Err(e) = super::built_ins::run_function(f, self) {
+                    return Err(self.built_in_failed(e));
+                }
             }
             Instruction::Label(_) => (), // no-op
             Instruction::Halt => {
@@ -572,6 +576,15 @@ impl<TStdlib: Stdlib, TStdIn: Input, TStdOut: Printer, TLpt1: Printer>
             }
         }
         Ok(())
+    }
+
+    /// A built-in SUB or FUNCTION failed: its call is over, so its context and its call site
+    /// are popped before the error is reported at that call site. The call stack of the callers
+    /// stays intact, in case an error handler resumes execution.
+    fn built_in_failed(&mut self, e: RuntimeError) -> RuntimeErrorPos {
+        self.context.pop();
+        let call_site = self.stacktrace.remove(0);
+        RuntimeErrorPos::new(e, call_site)
     }
 
     fn choose_printer(&mut self) -> &mut dyn Printer {
